@@ -182,6 +182,15 @@ theorem revert_one (db : DB) (op : MOp) (h : Sat db) :
       rw [revert_top _ (.accAddr a) db.journal rfl]
       have hc' : db.accA a = false := by simpa using hc
       simp [undoTop, undo, DB.push, Entry.dirtied, upd_eq_self _ _ _ hc']
+  | createAccount a =>
+    simp only [mstepCore, hg]
+    cases ho : db.objs a with
+    | none =>
+      rw [revert_top _ (.create a) db.journal rfl]
+      simp [undoTop, undo, DB.push, DB.setObj, Entry.dirtied, upd_eq_self _ _ _ ho]
+    | some o =>
+      rw [revert_top _ (.reset a o) db.journal rfl]
+      simp [undoTop, undo, DB.push, DB.setObj, Entry.dirtied, upd_eq_self _ _ _ ho]
   | accSlot a k =>
     simp only [mstepCore]
     by_cases hc : db.accS a k = true
